@@ -379,3 +379,54 @@ package model
 //@   ensures C07.tr: err == nil ==> sameBytes(out, b)
 //@ func trT0x0102
 //@   ensures C07.tr: err == nil ==> sameBytes(out, b)
+
+// ---------------------------------------------------------------------------------------------
+// C07, 0x8800 (multimedia upload reply): ID (4 bytes), then - only when packets are to be resent - the count (1 byte)
+// and the package IDs (2 bytes each). JT/T 808 table for 0x8800: "when all packets were received there are no
+// further fields", so a 4-byte body is well-formed; Encode produces exactly that for an empty list.
+// ---------------------------------------------------------------------------------------------
+//@ func (*P0x8800).Parse
+//@   mode contract
+//@   modifies *p
+//@   requires C07.empty: len(p.AgainPackageList) == 0 && cap(p.AgainPackageList) == 0
+//@   loop 1 decreases int(p.AgainPackageCount) - i
+//@   loop 1 invariant i: 0 <= i && i <= int(p.AgainPackageCount)
+//@   loop 1 invariant n: len(p.AgainPackageList) == old(len(p.AgainPackageList)) + i
+//@   loop 1 invariant layout: len(body) == 5 + 2*int(p.AgainPackageCount) && p.AgainPackageCount == body[4] && p.MultimediaID == be32(body, 0)
+//@   loop 1 invariant body: ptr(body) == old(ptr(jtMsg.Body)) && len(body) == old(len(jtMsg.Body))
+//@   loop 1 invariant ids: forall(k, 0, i, p.AgainPackageList[k] == be16(body, 5+2*k))
+//@   loop 1 invariant own: cap(p.AgainPackageList) == 0 || fresh(p.AgainPackageList)
+//@   ensures C07.ok: iff(result == nil, old(len(jtMsg.Body) == 4 || (len(jtMsg.Body) >= 5 && len(jtMsg.Body) == 5 + 2*int(jtMsg.Body[4]))))
+//@   ensures C07.id: result == nil ==> p.MultimediaID == old(be32(jtMsg.Body, 0))
+//@   ensures C07.count: result == nil ==> len(p.AgainPackageList) == int(p.AgainPackageCount) && p.AgainPackageCount == ite(old(len(jtMsg.Body)) >= 5, old(jtMsg.Body[4]), byte(0))
+//@   ensures C07.ids: result == nil ==> forall(k, 0, len(p.AgainPackageList), p.AgainPackageList[k] == old(be16(jtMsg.Body, 5+2*k)))
+
+//@ func (*P0x8800).Encode
+//@   mode contract
+//@   modifies nothing
+//@   ensures C07.fresh: fresh(result)
+//@   loop 1 invariant idx: 0 - 1 <= rangeindex && rangeindex < len(p.AgainPackageList)
+//@   loop 1 invariant fresh: fresh(data)
+//@   loop 1 invariant len: len(data) == 5 + 2*(rangeindex+1)
+//@   loop 1 invariant head: be32(data, 0) == p.MultimediaID && data[4] == p.AgainPackageCount
+//@   loop 1 invariant ids: forall(k, 0, rangeindex+1, be16(data, 5+2*k) == p.AgainPackageList[k])
+//@   ensures C07.len: len(result) == ite(len(p.AgainPackageList) == 0, 4, 5 + 2*len(p.AgainPackageList))
+//@   ensures C07.head: be32(result, 0) == p.MultimediaID && (len(p.AgainPackageList) > 0 ==> result[4] == p.AgainPackageCount)
+//@   ensures C07.ids: forall(k, 0, len(p.AgainPackageList), be16(result, 5+2*k) == p.AgainPackageList[k])
+
+//@ func rtP0x8800
+//@   requires C07.in: x != nil && int(x.AgainPackageCount) == len(x.AgainPackageList)
+//@   ensures C07.rt.ok: err == nil
+//@   ensures C07.rt.id: y.MultimediaID == x.MultimediaID
+//@   ensures C07.rt.count: y.AgainPackageCount == x.AgainPackageCount
+//@   ensures C07.rt.len: len(y.AgainPackageList) == len(x.AgainPackageList)
+//@   ensures C07.rt.ids: forall(k, 0, len(x.AgainPackageList), y.AgainPackageList[k] == x.AgainPackageList[k])
+//@   ensures C07.rt: err == nil && deepeq(y, *x)
+// A 5-byte body (explicit count 0, no IDs) is accepted and re-encoded in the canonical 4-byte form: the identity on
+// bytes is stated for the canonical bodies, len(b) != 5, field by field.
+//@ func trP0x8800
+//@   ensures C07.tr.len: err == nil && len(b) != 5 ==> len(out) == len(b)
+//@   ensures C07.tr.id: err == nil && len(b) != 5 ==> be32(out, 0) == be32(b, 0)
+//@   ensures C07.tr.count: err == nil && len(b) > 5 ==> out[4] == b[4]
+//@   ensures C07.tr.ids: err == nil && len(b) > 5 ==> forall(k, 0, int(b[4]), be16(out, 5+2*k) == be16(b, 5+2*k))
+// (length, ID word, count byte and every 16-bit ID equal: together this is byte identity of out and b)
